@@ -31,7 +31,7 @@ DatesFull ==
         Well("dbY", <<3, 2, 2015>>), Well("dbY", <<29, 2, 2016>>), Well("dbY", <<32, 1, 2015>>),
         Well("ybd", <<99, 12, 31>>), Well("ybd", <<68, 3, 1>>), Well("Ybd", <<2015, 6, 30>>),
         Ill("slashes"), Ill("badmonth"), Ill("blank")}
-DatesFew == {Absent, Well("dbY", <<3, 2, 2015>>), Ill("slashes")}
+DatesFew == {Absent, Well("dbY", <<3, 2, 2015>>), Well("ybd", <<99, 12, 31>>), Well("dby", <<3, 2, 15>>), Ill("slashes")}
 Steps == IF Group = "timing-a" THEN StepsFull ELSE StepsFew
 Ticks == IF Group = "timing-a" THEN TicksFull ELSE TicksFew
 Times(h) == IF Group = "timing-b" THEN TimesFull(h) ELSE TimesFew(h)
